@@ -45,6 +45,7 @@ class Shape(object):
             k0 = sorted(full, key=str)[0]
             the_map[k0] = full[k0]
         self.open = opentype.OpenType('id', the_map)
+        self.the_map = the_map
         id_type = univ.Integer() if id_kind == 'int' else univ.ObjectIdentifier()
         cls = univ.Sequence if container == 'seq' else univ.Set
         self.schema = cls(componentType=namedtype.NamedTypes(
@@ -242,6 +243,65 @@ def model_correspondence(rep, shape, g, inner_types, inners, mapped, mode, data,
             rep.disagree('OPENDEC', dict(rp, resolve=resolve), 'inner %s' % str(innerm)[:100], 'inner left unresolved')
 
 
+def check_map_history(rep, rng):
+    """the type map is the caller's dict, held by reference: a decode resolves with whatever the map holds for the governing
+    value AT THAT MOMENT - after an entry has been used, re-registered to another type, overridden by the caller for one
+    call, removed again"""
+    ta = ('seq', [('r', None, ('int',))])
+    tb = ('seq', [('r', None, ('str', 4)), ('r', None, ('bool',))])
+    tc = ('seqof', ('int',))
+    wa, wb, wc = ('seq', [('i', 7)]), ('seq', [('s', b'ab'), ('b', True)]), ('of', [('i', 1), ('i', 2)])
+    for container in ('seq', 'set'):
+        for id_kind, key in (('int', 3), ('oid', (1, 3, 6, 1))):
+            for tagging in (None, ('i', 5), ('e', 5)):
+                if container == 'set' and tagging is None:
+                    continue
+                for mode in MODES:
+                    cdc, dm = mode
+                    shape = Shape(container, id_kind, tagging, None, {key: ta})
+                    the_map = shape.open._OpenType__typeMap if hasattr(shape.open, '_OpenType__typeMap') else None
+                    # reach the caller's dict through the public mapping protocol if the attribute is not there
+                    k = shape.key(key)
+                    case = {'kind': 'map-history', 'shape': shape.describe(), 'codec': cdc, 'defMode': dm}
+
+                    def run(t, w, expect, step, **kw):
+                        rep.evaluations += 1
+                        rep.count('map-history-steps')
+                        try:
+                            data = enc(cdc, shape.build(key, [w], [t]), dm)
+                            res, rest = codec.DEC[cdc].decode(data, asn1Spec=shape.schema, decodeOpenTypes=True, **kw)
+                            field = res['value']
+                        except Exception as e:  # noqa
+                            rep.fail('map-history:%s:%s' % (step, codec.classify(e)), 'step %s: %r' % (step, e), dict(case, step=step))
+                            return
+                        if expect == 'raw':
+                            try:
+                                raw = enc(cdc, gen.build_value(t, w), dm)
+                                ok = field.asOctets() == raw
+                            except Exception:  # noqa
+                                ok = False
+                        else:
+                            try:
+                                ok = gen.val_equiv(t, gen.abstract(t, field), w)
+                            except Exception:  # noqa
+                                ok = False
+                        if not ok:
+                            rep.fail('map-history:%s' % step, 'step %s: the field came back as %s' % (
+                                step, str(field.prettyPrint())[:120].replace('\n', ' ')), dict(case, step=step))
+                    if (cdc == 'cer' or not dm):
+                        pass
+                    mp = shape.the_map
+                    run(ta, wa, 'resolved', '1-first-use')
+                    mp[k] = gen.build(tb)
+                    run(tb, wb, 'resolved', '2-re-registered')
+                    run(tc, wc, 'resolved', '3-caller-override', openTypes={k: gen.build(tc)})
+                    run(tb, wb, 'resolved', '4-default-again')
+                    del mp[k]
+                    run(tb, wb, 'raw', '5-removed')
+                    mp[k] = gen.build(ta)
+                    run(ta, wa, 'resolved', '6-registered-again')
+
+
 def any_match(items, t, w):
     for it in items:
         try:
@@ -287,6 +347,7 @@ def run(rep, tier, seed):
     rep.assumptions = ['SET containers are exercised with tagged ANY fields only when the ANY would otherwise be ambiguous']
     g0 = gen.Gen(rng, max_depth=1, allow_any=False)
     _DRV[0] = common.Driver()
+    check_map_history(rep, rng)
     for i in range(n):
         container = rng.choice(['seq', 'seq', 'set'])
         id_kind = rng.choice(['int', 'oid'])
